@@ -58,6 +58,7 @@ Judge(e) ==
          [] e.op = "EncDec" -> JEncDec(e)
          [] e.op = "Blind" -> JBlind(e)
          [] e.op = "Concurrent" -> JConcurrent(e)
+         [] e.op = "ConcurrentVerify" -> JConcurrentVerify(e)
          [] e.op = "ZeroMethods" -> JZero(e)
          [] e.op = "PartialMethods" -> JPartial(e)
          [] e.op = "Catalogue" -> JCatalogue(e)
